@@ -123,9 +123,11 @@ CHECKS = {
    cat="proof", technique="Lean 4 theorems over all values of each invalid class for every guard / setter / update transition + guard decision trees REGENERATED from the current source by an AST translator, each proved equal to the model's guard function on every run + exhaustive execution of the entry-point x value-class x life-phase table on the real objects",
    text="sspor_ctor_spec, sspor_set_invalid/_unfitted, sspor_update_invalid/_needs_data/_too_many, sspoc_update_invalid/_neither/_unfitted, basisCtor_spec, basisRep_spec, predict_guard_spec, full_state_guard_spec, ccqr_costs_spec, gqr_option_spec, "
         "box_contradictory (+ setN_rejected_unchanged, update_rejected_unchanged, sspor_setter_is_its_guard, sspor_ctor_is_its_guard, sspoc_update_sensors_is_its_guard, box_guard_is_its_tree_spec); harness/translate_guards.py regenerates 23 guard trees from the source "
-        "(theorems guard_<entry point> in Generated/Guards.lean, re-checked by lake and audited for axioms); the table (about 700 cells) is executed on the real code, outcomes and before/after observables compared.",
+        "(theorems guard_<entry point> in Generated/Guards.lean, re-checked by lake and audited for axioms); harness/translate_effects.py regenerates the ORDER of state writes and explicit rejections of the setters (SSPOR.set_number_of_sensors / set_n_sensors with its callee inlined, SSPOC.update_sensors) as effect trees; "
+        "atomic_<setter> (decide) + ETree.atomic_sound (induction over executions) give rejected_<setter>_writes_nothing: on every execution of the statements as written an explicit rejection precedes the first write; "
+        "the table (about 780 cells) is executed on the real code, outcomes and before/after observables compared.",
    ref="DESIGN.md §5 C19",
-   note="Holds after fix 3748913. One listed known finding: a fit/update on narrower data is rejected only after the basis was refitted (predictions change). The guard translator ignores statements that are not checks and does not follow callees; atoms are named by source text, so a renaming breaks the generated proof (reported as no-failing-input-found when the table finds nothing)."),
+   note="Holds after fix 3748913. One listed known finding: a fit/update on narrower data is rejected only after the basis was refitted (predictions change). Effect trees abstract conditions to choices and do not model exceptions raised implicitly by expressions (numpy, comparisons of unlike types) – the executed table covers those. The guard translator ignores statements that are not checks and does not follow callees; atoms are named by source text, so a renaming breaks the generated proof (reported as no-failing-input-found when the table finds nothing)."),
  "C20": dict(
    cat="proof", technique="Lean 4 soundness theorem for a may-alias check + obligations REGENERATED from the current source by an AST translator and re-checked by the kernel on every run + dynamic snapshot / read-only sweep",
    text="analysis_sound (proved once): check prog = true => along every execution no protected buffer is written. harness/translate_alias.py re-derives the alias program of every package function containing an in-place write from the AST on every run; "
